@@ -1,19 +1,43 @@
 // Shared by c03.rs and c04.rs (included with #[path]): runs the real loader
-// parsley_rust::pdf_lib::pdf_traverse_xref::parse_data in-process on the rendered file of a case.
+// parsley_rust::pdf_lib::pdf_traverse_xref::parse_data in-process on the rendered file of a case, and
+// VALIDATES the abstract description of the file (the item tokens read by the Coq model,
+// coq/Model/Loader.v) against the real byte-level parsers applied to the file bytes.
 //
 // case:  L <flen> <magic> <startxref|-> <probes> <spec> <hex of the file> item*
-// Only <probes> (ids to look up, `num.gen+num.gen+…` or `-`) and <hex> are used here; the other
-// tokens are the abstract description read by the Coq model (coq/Model/Loader.v) and the
-// specification-level expectation read by the python oracle.
+//   <probes>  ids to look up, `num.gen+num.gen+…` or `-`
+//   <spec>    the specification-level expectation, read by the python oracle only
+//   item      X;off;next;ents;root;prev;xrefstm | T;off;next;num.gen;ents;root;prev | O;off;next;num.gen;objtext
+//             | M;off;next;num.gen;clen;lenref;num=objtext+… | G;off;next          (see coq/Model/Loader.v)
 //
-// observation:  rejected                      an exit_log! (feature `verif`: unwinds with VerifExit)
-//               panic                         any other unwinding
-//               loaded root=n.g n.g=<obj> …   for every probe bound in the returned PDFObjContext, in
-//                                             probe order; xref-stream / object-stream containers
-//                                             (bookkeeping objects of the layout) print as *xref / *objstm
+// observation:  <outcome> items=ok | <outcome> items=bad:<item index>:<what differs>
+//   outcome = rejected                      an exit_log! (feature `verif`: unwinds with VerifExit)
+//             panic                         any other unwinding
+//             loaded root=n.g n.g=<obj> …   for every probe bound in the returned PDFObjContext, in probe order;
+//                                           xref-stream / object-stream containers print as *xref / *objstm
+//
+// Validation (every item in a PDFObjContext of its own, so that it does not depend on load order):
+//   header fields  flen = length of the view that starts at `%PDF-`; magic; startxref = what the two backward
+//                  scans + StartXrefP of parse_data yield
+//   X   XrefSectP at off: the entries; then scan("trailer") + TrailerP: /Root, /Prev, /XRefStm (or no trailer)
+//   T   IndirectP at off: a stream object with that id, /Length direct; XrefStreamP on its content: the entries,
+//       /Root, /Prev
+//   O   IndirectP at off: that id and canonical value; when /Length is a reference: InsufficientContext in an
+//       empty context, success once the holder (an integer = payload length) is defined
+//   M   IndirectP at off (same treatment of a referenced /Length, holder = clen): a stream of clen bytes;
+//       ObjStreamP on its content: the members
+//   G   neither XrefSectP nor IndirectP succeeds at off
+//   O/T/M: white space / comments lead from the end of the object to offset `next`
+//   every offset that the description mentions (entries, /Prev, /XRefStm, startxref) and that is inside the
+//   file but not the offset of an item is validated as G
 use implrun::*;
-use parsley_rust::pdf_lib::pdf_obj::PDFObjT;
+use parsley_rust::pcore::parsebuffer::ParsleyParser;
+use parsley_rust::pcore::transforms::{BufferTransformT, RestrictView};
+use parsley_rust::pdf_lib::pdf_file::{StartXrefP, TrailerP, XrefSectP};
+use parsley_rust::pdf_lib::pdf_obj::{IndirectP, PDFObjContext, PDFObjT};
+use parsley_rust::pdf_lib::pdf_prim::WhitespaceEOL;
+use parsley_rust::pdf_lib::pdf_streams::{ObjStreamP, XrefEntStatus, XrefEntT, XrefStreamP};
 use parsley_rust::pdf_lib::pdf_traverse_xref::{parse_data, VerifExit};
+use std::collections::BTreeSet;
 use std::panic::{catch_unwind, AssertUnwindSafe};
 use std::path::Path;
 
@@ -28,6 +52,370 @@ fn show_val(o: &PDFObjT) -> String {
     pdfobj::show(o)
 }
 
+fn find_sub(h: &[u8], n: &[u8]) -> Option<usize> { h.windows(n.len()).position(|w| w == n) }
+
+fn opt_usize(o: Option<usize>) -> String {
+    match o {
+        Some(v) => v.to_string(),
+        None => "-".to_string(),
+    }
+}
+
+fn ents_text(ents: &[LocatedVal<XrefEntT>]) -> String {
+    if ents.is_empty() {
+        return "-".to_string()
+    }
+    let v: Vec<String> = ents
+        .iter()
+        .map(|e| {
+            let e = e.val();
+            match e.status() {
+                XrefEntStatus::Free { next } => format!("{}.{}.f.{}", e.obj(), e.gen(), next),
+                XrefEntStatus::InUse { file_ofs } => format!("{}.{}.n.{}", e.obj(), e.gen(), file_ofs),
+                XrefEntStatus::InStream {
+                    stream_obj,
+                    obj_index,
+                } => format!("{}.{}.s.{}.{}", e.obj(), e.gen(), stream_obj, obj_index),
+            }
+        })
+        .collect();
+    v.join("+")
+}
+
+// offsets mentioned by an entry list text
+fn ent_offsets(txt: &str, out: &mut BTreeSet<usize>) {
+    if txt == "-" {
+        return
+    }
+    for e in txt.split('+') {
+        let p: Vec<&str> = e.split('.').collect();
+        if p.len() >= 4 && p[2] == "n" {
+            if let Ok(o) = p[3].parse::<usize>() {
+                out.insert(o);
+            }
+        }
+    }
+}
+
+struct View {
+    body: Vec<u8>,
+}
+
+impl View {
+    fn at(&self, off: usize) -> Option<ParseBuffer> {
+        let mut pb = ParseBuffer::new(self.body.clone());
+        if pb.set_cursor(off).is_err() {
+            return None
+        }
+        Some(pb)
+    }
+
+    // "garbage": no xref section and no indirect object parse at `off`
+    fn is_garbage(&self, off: usize) -> Result<(), String> {
+        match self.at(off) {
+            None => Ok(()),
+            Some(mut pb) => {
+                if XrefSectP.parse(&mut pb).is_ok() {
+                    return Err("an xref section parses here".to_string())
+                }
+                let mut pb = self.at(off).unwrap();
+                let mut ctxt = PDFObjContext::new(50);
+                match IndirectP::new(&mut ctxt).parse(&mut pb) {
+                    Ok(_) => Err("an indirect object parses here".to_string()),
+                    Err(e) => {
+                        if let ErrorKind::InsufficientContext = e.val() {
+                            Err("an indirect object with a referenced /Length starts here".to_string())
+                        } else {
+                            Ok(())
+                        }
+                    },
+                }
+            },
+        }
+    }
+
+    // white space and comments lead from `from` to `next`
+    fn leads_to(&self, from: usize, next: usize) -> Result<(), String> {
+        let mut pb = match self.at(from) {
+            Some(pb) => pb,
+            None => return Err("end cursor outside the file".to_string()),
+        };
+        let _ = WhitespaceEOL::new(true).parse(&mut pb);
+        let c = pb.get_cursor();
+        if c == next || (next >= self.body.len() && c >= self.body.len()) {
+            Ok(())
+        } else {
+            Err(format!("after the object the next token is at {} not {}", c, next))
+        }
+    }
+
+    // IndirectP at off; a referenced /Length (lenref, n) must give InsufficientContext in an empty
+    // context and succeed once lenref is an integer n.  Returns (num, gen, object, end cursor).
+    fn indirect(
+        &self, off: usize, lenref: Option<((usize, usize), usize)>,
+    ) -> Result<(usize, usize, std::rc::Rc<LocatedVal<PDFObjT>>, usize), String> {
+        if let Some(_) = lenref {
+            let mut pb = self.at(off).ok_or("offset outside the file")?;
+            let mut ctxt = PDFObjContext::new(50);
+            match IndirectP::new(&mut ctxt).parse(&mut pb) {
+                Err(e) => {
+                    if let ErrorKind::InsufficientContext = e.val() {
+                    } else {
+                        return Err(format!("empty context: error {} instead of InsufficientContext", ekind(e.val())))
+                    }
+                },
+                Ok(_) => return Err("parses in an empty context although /Length is a reference".to_string()),
+            }
+        }
+        let mut pb = self.at(off).ok_or("offset outside the file")?;
+        let mut ctxt = PDFObjContext::new(50);
+        if let Some(((n, g), len)) = lenref {
+            pdfobj::read_ctx(&format!("{}.{}=i{}", n, g, len), &mut ctxt);
+        }
+        match IndirectP::new(&mut ctxt).parse(&mut pb) {
+            Err(e) => Err(format!("IndirectP fails: {}", ekind(e.val()))),
+            Ok(io) => {
+                let end = pb.get_cursor();
+                let io = io.unwrap();
+                Ok((io.num(), io.gen(), std::rc::Rc::clone(io.obj()), end))
+            },
+        }
+    }
+}
+
+fn parse_id(s: &str) -> Option<(usize, usize)> {
+    let mut it = s.split('.');
+    let n = it.next()?.parse().ok()?;
+    let g = it.next()?.parse().ok()?;
+    Some((n, g))
+}
+
+fn check_item(v: &View, tok: &str, keys: &BTreeSet<usize>, mentioned: &mut BTreeSet<usize>) -> Result<(), String> {
+    let p: Vec<&str> = tok.split(';').collect();
+    if p.len() < 3 {
+        return Err("malformed item".to_string())
+    }
+    let off: usize = p[1].parse().map_err(|_| "bad offset")?;
+    let next: usize = p[2].parse().map_err(|_| "bad next")?;
+    let _ = keys;
+    match p[0] {
+        "G" => v.is_garbage(off),
+        "X" => {
+            if p.len() < 7 {
+                return Err("malformed X item".to_string())
+            }
+            let mut pb = v.at(off).ok_or("offset outside the file")?;
+            let xs = XrefSectP.parse(&mut pb).map_err(|e| format!("XrefSectP fails: {}", ekind(e.val())))?;
+            let got = ents_text(&xs.val().ents());
+            if got != p[3] {
+                return Err(format!("entries {} vs described {}", got, p[3]))
+            }
+            ent_offsets(p[3], mentioned);
+            let (root, prev, xstm) = match pb.scan(b"trailer") {
+                Err(_) => ("!".to_string(), "-".to_string(), "-".to_string()),
+                Ok(_) => {
+                    let mut ctxt = PDFObjContext::new(50);
+                    match TrailerP::new(&mut ctxt).parse(&mut pb) {
+                        Err(_) => ("!".to_string(), "-".to_string(), "-".to_string()),
+                        Ok(t) => {
+                            let d = t.val().dict();
+                            (
+                                match d.get(b"Root") {
+                                    Some(r) => pdfobj::show(r.val()),
+                                    None => "-".to_string(),
+                                },
+                                opt_usize(d.get_usize(b"Prev")),
+                                opt_usize(d.get_usize(b"XRefStm")),
+                            )
+                        },
+                    }
+                },
+            };
+            if root != p[4] || prev != p[5] || xstm != p[6] {
+                return Err(format!("trailer {};{};{} vs described {};{};{}", root, prev, xstm, p[4], p[5], p[6]))
+            }
+            for f in [p[5], p[6]] {
+                if let Ok(o) = f.parse::<usize>() {
+                    mentioned.insert(o);
+                }
+            }
+            Ok(())
+        },
+        "T" => {
+            if p.len() < 7 {
+                return Err("malformed T item".to_string())
+            }
+            let id = parse_id(p[3]).ok_or("bad id")?;
+            let (n, g, obj, end) = v.indirect(off, None)?;
+            if (n, g) != id {
+                return Err(format!("object id {}.{} vs described {}", n, g, p[3]))
+            }
+            let s = match obj.val() {
+                PDFObjT::Stream(s) => s,
+                _ => return Err("not a stream".to_string()),
+            };
+            let content = s.stream().val();
+            let pb = v.at(0).unwrap();
+            let mut view = RestrictView::new(content.start(), content.size())
+                .transform(&pb)
+                .map_err(|_| "cannot restrict to the stream content")?;
+            let xs = XrefStreamP::new(false, s)
+                .parse(&mut view)
+                .map_err(|e| format!("XrefStreamP fails: {}", ekind(e.val())))?;
+            let got = ents_text(xs.val().ents());
+            if got != p[4] {
+                return Err(format!("entries {} vs described {}", got, p[4]))
+            }
+            ent_offsets(p[4], mentioned);
+            let root = match xs.val().dict().get(b"Root") {
+                Some(r) => pdfobj::show(r.val()),
+                None => "-".to_string(),
+            };
+            let prev = opt_usize(xs.val().dict().get_usize(b"Prev"));
+            if root != p[5] || prev != p[6] {
+                return Err(format!("stream dictionary {};{} vs described {};{}", root, prev, p[5], p[6]))
+            }
+            if let Ok(o) = p[6].parse::<usize>() {
+                mentioned.insert(o);
+            }
+            v.leads_to(end, next)
+        },
+        "O" => {
+            if p.len() < 5 {
+                return Err("malformed O item".to_string())
+            }
+            let id = parse_id(p[3]).ok_or("bad id")?;
+            // a referenced /Length, read off the described value
+            let mut lenref = None;
+            if p[4].starts_with("S(") {
+                if let PDFObjT::Stream(s) = pdfobj::read(p[4]) {
+                    if let Some(l) = s.dict().val().get(b"Length") {
+                        if let PDFObjT::Reference(r) = l.val() {
+                            lenref = Some((r.id(), s.content().len()));
+                        }
+                    }
+                }
+            }
+            let (n, g, obj, end) = v.indirect(off, lenref)?;
+            if (n, g) != id {
+                return Err(format!("object id {}.{} vs described {}", n, g, p[3]))
+            }
+            let got = pdfobj::show(obj.val());
+            if got != p[4] {
+                return Err(format!("value {} vs described {}", got, p[4]))
+            }
+            v.leads_to(end, next)
+        },
+        "M" => {
+            if p.len() < 7 {
+                return Err("malformed M item".to_string())
+            }
+            let id = parse_id(p[3]).ok_or("bad id")?;
+            let clen: usize = p[4].parse().map_err(|_| "bad clen")?;
+            let lenref = if p[5] == "-" { None } else { Some((parse_id(p[5]).ok_or("bad lenref")?, clen)) };
+            let (n, g, obj, end) = v.indirect(off, lenref)?;
+            if (n, g) != id {
+                return Err(format!("object id {}.{} vs described {}", n, g, p[3]))
+            }
+            let s = match obj.val() {
+                PDFObjT::Stream(s) => s,
+                _ => return Err("not a stream".to_string()),
+            };
+            let content = s.stream().val();
+            if content.size() != clen {
+                return Err(format!("payload of {} bytes vs described {}", content.size(), clen))
+            }
+            let pb = v.at(0).unwrap();
+            let mut view = RestrictView::new(content.start(), content.size())
+                .transform(&pb)
+                .map_err(|_| "cannot restrict to the stream content")?;
+            let mut ctxt = PDFObjContext::new(50);
+            let os = ObjStreamP::new(&mut ctxt, s)
+                .parse(&mut view)
+                .map_err(|e| format!("ObjStreamP fails: {}", ekind(e.val())))?;
+            let got: Vec<String> = os
+                .val()
+                .objs()
+                .iter()
+                .map(|o| format!("{}={}", o.val().num(), pdfobj::show(o.val().obj().val())))
+                .collect();
+            let got = if got.is_empty() { "-".to_string() } else { got.join("+") };
+            if got != p[6] {
+                return Err(format!("members {} vs described {}", got, p[6]))
+            }
+            v.leads_to(end, next)
+        },
+        _ => Err("unknown item kind".to_string()),
+    }
+}
+
+fn validate(t: &[&str], data: &[u8]) -> Result<(), String> {
+    let hdr = find_sub(data, b"%PDF-");
+    let magic = if hdr.is_some() { "1" } else { "0" };
+    if magic != t[2] {
+        return Err(format!("h:magic {} vs described {}", magic, t[2]))
+    }
+    let hdr = match hdr {
+        Some(h) => h,
+        None => return Ok(()), // nothing else is looked at by the loader
+    };
+    let v = View {
+        body: data[hdr ..].to_vec(),
+    };
+    let flen = v.body.len();
+    if flen.to_string() != t[1] {
+        return Err(format!("h:flen {} vs described {}", flen, t[1]))
+    }
+    // startxref as parse_data finds it
+    let sx = {
+        let mut pb = v.at(flen).unwrap();
+        let _ = pb.backward_scan(b"%%EOF");
+        match pb.backward_scan(b"startxref") {
+            Err(_) => "-".to_string(),
+            Ok(_) => match StartXrefP.parse(&mut pb) {
+                Err(_) => "-".to_string(),
+                Ok(s) => s.val().offset().to_string(),
+            },
+        }
+    };
+    if sx != t[3] {
+        return Err(format!("h:startxref {} vs described {}", sx, t[3]))
+    }
+    let mut keys = BTreeSet::new();
+    for tok in &t[7 ..] {
+        let p: Vec<&str> = tok.split(';').collect();
+        if p.len() >= 2 {
+            if let Ok(o) = p[1].parse::<usize>() {
+                keys.insert(o);
+            }
+        }
+    }
+    let mut mentioned = BTreeSet::new();
+    if let Ok(o) = t[3].parse::<usize>() {
+        mentioned.insert(o);
+    }
+    for (i, tok) in t[7 ..].iter().enumerate() {
+        let r = catch_unwind(AssertUnwindSafe(|| check_item(&v, tok, &keys, &mut mentioned)));
+        match r {
+            Ok(Ok(())) => (),
+            Ok(Err(m)) => return Err(format!("{}:{}", i, m.replace(' ', "_"))),
+            Err(_) => return Err(format!("{}:a_parser_panicked", i)),
+        }
+    }
+    // offsets that the description mentions but does not key behave like garbage in the model
+    for o in mentioned {
+        if o < flen && !keys.contains(&o) {
+            let r = catch_unwind(AssertUnwindSafe(|| v.is_garbage(o)));
+            match r {
+                Ok(Ok(())) => (),
+                Ok(Err(m)) => return Err(format!("u{}:{}", o, m.replace(' ', "_"))),
+                Err(_) => return Err(format!("u{}:a_parser_panicked", o)),
+            }
+        }
+    }
+    Ok(())
+}
+
 pub fn run_case(t: &[&str]) -> String {
     if t.len() < 7 || t[0] != "L" {
         return "badcase".to_string()
@@ -35,16 +423,15 @@ pub fn run_case(t: &[&str]) -> String {
     let mut probes: Vec<(usize, usize)> = Vec::new();
     if t[4] != "-" {
         for p in t[4].split('+') {
-            let mut it = p.split('.');
-            let n: usize = it.next().unwrap().parse().unwrap();
-            let g: usize = it.next().unwrap().parse().unwrap();
-            probes.push((n, g));
+            if let Some(id) = parse_id(p) {
+                probes.push(id);
+            }
         }
     }
     let data = unhex(t[6]);
     let path = Path::new("case.pdf");
     let r = catch_unwind(AssertUnwindSafe(|| parse_data(path, &data)));
-    match r {
+    let mut out = match r {
         Err(payload) => {
             if payload.downcast_ref::<VerifExit>().is_some() {
                 "rejected".to_string()
@@ -61,7 +448,12 @@ pub fn run_case(t: &[&str]) -> String {
             }
             out
         },
+    };
+    match validate(t, &data) {
+        Ok(()) => out.push_str(" items=ok"),
+        Err(m) => out.push_str(&format!(" items=bad:{}", m.replace(' ', "_"))),
     }
+    out
 }
 
 pub fn main_loader() { run_lines(run_case) }
